@@ -34,6 +34,14 @@ namespace BitSerializer::Detail
 		int32_t Nanoseconds{};		// Must not be larger than 999999999
 	};
 
+	/// <summary>
+	/// Returns the timestamp with seconds and nanoseconds of the same sign (keeps the lowest second of a target range reachable).
+	/// </summary>
+	inline CBinTimestamp ToSameSignParts(const CBinTimestamp& timestamp) noexcept
+	{
+		return (timestamp.Seconds < 0 && timestamp.Nanoseconds > 0) ? CBinTimestamp(timestamp.Seconds + 1, timestamp.Nanoseconds - 1000000000) : timestamp;
+	}
+
 	//-----------------------------------------------------------------------------
 
 	template <typename TClock, typename TDuration>
@@ -61,8 +69,9 @@ namespace BitSerializer::Detail
 	}
 
 	template <typename TClock, typename TDuration>
-	void To(const CBinTimestamp& timestamp, std::chrono::time_point<TClock, TDuration>& outTimePoint)
+	void To(const CBinTimestamp& binTimestamp, std::chrono::time_point<TClock, TDuration>& outTimePoint)
 	{
+		const CBinTimestamp timestamp = ToSameSignParts(binTimestamp);
 		outTimePoint = std::chrono::time_point<TClock, TDuration>(
 			Convert::Detail::SafeDurationCast<TDuration>(std::chrono::seconds(timestamp.Seconds)));
 		if (timestamp.Nanoseconds)
@@ -107,8 +116,9 @@ namespace BitSerializer::Detail
 	}
 
 	template <class TRep, class TPeriod>
-	void To(const CBinTimestamp& timestamp, std::chrono::duration<TRep, TPeriod>& outDuration)
+	void To(const CBinTimestamp& binTimestamp, std::chrono::duration<TRep, TPeriod>& outDuration)
 	{
+		const CBinTimestamp timestamp = ToSameSignParts(binTimestamp);
 		using TDuration = std::chrono::duration<TRep, TPeriod>;
 
 		outDuration = Convert::Detail::SafeDurationCast<TDuration>(std::chrono::seconds(timestamp.Seconds));
